@@ -36,9 +36,11 @@ def gen_conf(rng, v6=False):
             e = {'ip_proto': rng.choice(list(IPP)), 'mode': rng.choice(['transport', 'tunnel']), 'ipsec_proto': rng.choice(['esp', 'ah']),
                  'my_port': rng.choice([0, 0, 500, rng.randrange(1, 65536)]), 'peer_port': rng.choice([0, 0, 23, rng.randrange(1, 65536)])}
             if e['mode'] == 'tunnel' or rng.random() < 0.3:
-                # networks distinct per connection and entry (two entries with the same selector are not a valid configuration)
-                e['my_subnet'] = ('2001:db8:a:%x::/64' % (i * 4 + j)) if v6 else rng.choice(['10.1.%d.0/24' % (i * 4 + j), '10.%d.0.0/16' % (10 + i * 4 + j)])
-                e['peer_subnet'] = ('2001:db8:b:%x::/64' % (i * 4 + j)) if v6 else rng.choice(['10.2.%d.0/24' % (i * 4 + j), '172.%d.0.0/16' % (16 + i * 4 + j)])
+                # networks distinct per connection and entry (two entries with the same selector are not a valid configuration);
+                # one tunnel entry in five protects networks of the OTHER address family than the gateways' (6-in-4, 4-in-6)
+                inner6 = v6 != (e['mode'] == 'tunnel' and rng.random() < 0.2)
+                e['my_subnet'] = ('2001:db8:a:%x::/64' % (i * 4 + j)) if inner6 else rng.choice(['10.1.%d.0/24' % (i * 4 + j), '10.%d.0.0/16' % (10 + i * 4 + j)])
+                e['peer_subnet'] = ('2001:db8:b:%x::/64' % (i * 4 + j)) if inner6 else rng.choice(['10.2.%d.0/24' % (i * 4 + j), '172.%d.0.0/16' % (16 + i * 4 + j)])
             key = (e.get('my_subnet'), e['my_port'], e['peer_port'], e['ip_proto'])
             while key in seen:
                 e['peer_port'] = rng.randrange(1, 65536)
@@ -219,6 +221,48 @@ def run(ctx):
             check_spd(res, w.A, 'restart with live SAs', rep)
             for key, what, at in h.findings[:2]:
                 res.fail(key, what, rep)
+    # which IKE_SA an ACQUIRE is negotiated on: the one that exists with that peer, whatever its role and whatever it is busy with
+    for scenario in ('responder-busy', 'after-peer-rekey', 'after-own-rekey'):
+        for who in 'AB':
+            seed = rng.randrange(1 << 30)
+            other = 'B' if who == 'A' else 'A'
+            conf = {'dpd': 3000}
+            if scenario == 'after-peer-rekey':
+                conf.update({'ike_lifetime': 5000, 'ike_lifetime_b': 5000, ('ike_lifetime' if other == 'A' else 'ike_lifetime_b'): 100})
+            if scenario == 'after-own-rekey':
+                conf.update({'ike_lifetime': 5000, 'ike_lifetime_b': 5000, ('ike_lifetime' if who == 'A' else 'ike_lifetime_b'): 100})
+            with CP.History(seed, trace=False, **conf) as h:
+                h.oracles = [CP.o_no_escape, CP.o_sad_equals_tracked]
+                w = h.w
+                ep = w.A if who == 'A' else w.B
+                rep = {'seed': seed, 'scenario': scenario, 'endpoint': who, 'conf': conf}
+                res.evaluations += 1
+                res.nontrivial.add(('acquire-which-sa', scenario, who))
+                res.count('acquire-which-sa:' + scenario)
+                if not h.establish(other):                 # `who` is the responder of the IKE_SA
+                    continue
+                h.settle(20)
+                if scenario != 'responder-busy':
+                    h.op('tick', 106)
+                    h.settle(60)
+                    if len(ep.sas()) != 1 or int(ep.sas()[0].state) != 10:
+                        res.count('acquire-which-sa:not-reached')
+                        continue
+                else:
+                    h.op('acquire', who, 4001)             # own request in flight on the responder-side IKE_SA
+                n_init = len([d for d in w.sent if d.sender == who and d.data[18] == 34])
+                h.op('acquire', who, 4002)
+                h.settle(60)
+                n_init2 = len([d for d in w.sent if d.sender == who and d.data[18] == 34])
+                want_kids = 3 if scenario == 'responder-busy' else 2
+                sas = ep.sas()
+                if n_init2 != n_init or len(sas) != 1:
+                    res.fail('acquire-started-second-ike-sa', '%s: an ACQUIRE for a peer with which an IKE_SA exists started another IKE_SA_INIT '
+                             '(%d IKE_SAs afterwards: %s)' % (scenario, len(sas), [x.state.name for x in sas]), rep)
+                elif len(sas[0].child_sas) != want_kids:
+                    res.fail('acquire-not-served', '%s: %d CHILD_SAs on the IKE_SA, expected %d' % (scenario, len(sas[0].child_sas), want_kids), rep)
+                for key, what, at in h.findings[:2]:
+                    res.fail(key, what, rep)
     res.sample({'conf': repr(gen_conf(rng))[:500]})
     return res
 
